@@ -41,6 +41,11 @@ def run(repo: Repo, chk: Check) -> None:
     from .c05 import region_terminates
 
     region_terminates(repo, chk, "O5")
+    # "a changed L1 / L2 index is rejected or derives another key": the position named by the blob is range-checked and
+    # the chain walks of compute_l2_key are bounded and lead exactly to that position (C02-O1/O2/O3)
+    from .c02 import l2_obligations
+
+    l2_obligations(repo, chk)
 
 
 def primitives(repo: Repo, chk: Check) -> None:
